@@ -12,6 +12,8 @@ THEOREMS = {
             "Cntgs.C13.elem_eq_symm_generic", "Cntgs.C13.vec_eq_needs_equal_size", "Cntgs.C13.vec_eq_empty"],
     "C14": ["Cntgs.C14.elem_operators", "Cntgs.C14.vec_operators", "Cntgs.C14.elem_lt_strict", "Cntgs.C14.vec_lt_strict",
             "Cntgs.C14.elem_incomparable_trans", "Cntgs.C14.vec_lt_is_lexicographical"],
+    "C15": ["Cntgs.C15.toInt_mod", "Cntgs.C15.memcpy_sound", "Cntgs.C15.stored_is_converted", "Cntgs.C15.lvalue_not_moved",
+            "Cntgs.C15.rvalue_moved"],
     "C05": ["Cntgs.C05.fields_greedy", "Cntgs.C05.alignUp_is_lowest", "Cntgs.C05.elements_greedy", "Cntgs.C05.units_tight"],
 }
 
